@@ -261,6 +261,38 @@ static void do_kcancel(int k, uint64_t hsel)
     }
 }
 
+/* timers handled by somebody else than their process (the header: "pp: usually the calling process itself") */
+static void do_foreign_timer(int j, int what, int64_t arg)
+{
+    proc *t = &PR[j];
+    if (!t->started || t->finished) return;
+    if (arg < 0) arg = -arg;
+    if (what == 0) {                                   /* add */
+        if (t->ntimers >= MAXTIMERS) return;
+        const double d = dur_of(arg % 13);
+        const int64_t sig = 2000 + (int64_t)(W.sigctr++);
+        count_landing("foreign_timer_add", t);
+        const uint64_t h = cmb_process_timer_add(t->pp, d, sig);
+        cause *c = cause_add(t, CK_TIMER, sig, tnow() + d, true); c->handle = h;
+        t->timer_handle[t->ntimers] = h; t->timer_cause[t->ntimers] = (int)(c - t->cs); t->ntimers++;
+        TR3("ftimer", j, sig, dbits(c->due));
+    } else if (what == 1) {                            /* clear all */
+        int armed = 0;
+        for (int i = 0; i < t->ncs; i++) if (t->cs[i].kind == CK_TIMER && (t->cs[i].state == CS_ARMED || t->cs[i].state == CS_MAYBE)) { t->cs[i].state = CS_DEAD; armed++; }
+        if (armed) count_landing("foreign_timers_clear", t);
+        cmb_process_timers_clear(t->pp);
+        TR2("ftclear", j, armed);
+    } else {                                           /* cancel one */
+        if (t->ntimers == 0) return;
+        const int k = (int)((uint64_t)arg % (uint64_t)t->ntimers);
+        const int ci = t->timer_cause[k];
+        const bool armed = ci >= 0 && (t->cs[ci].state == CS_ARMED || t->cs[ci].state == CS_MAYBE);
+        if (armed) { t->cs[ci].state = CS_DEAD; count_landing("foreign_timer_cancel", t); }
+        (void)cmb_process_timer_cancel(t->pp, t->timer_handle[k]);
+        TR3("ftcancel", j, k, armed);
+    }
+}
+
 /* ------------------------------------------------------------------ faults */
 static void fault_action(void *subject, void *object)
 {
@@ -286,6 +318,9 @@ void fault_fire(int fi)
         case 8: do_resume(f->victim); break;
         case 9: for (int c = 0; c < W.ncond; c++) do_csignal(c); break;
         case 10: if (W.npq > 0) do_kcancel((int)((uint64_t)f->arg % (uint64_t)W.npq), (uint64_t)f->arg / 7u); break;
+        case 11: do_foreign_timer(f->victim, 0, f->arg); break;
+        case 12: do_foreign_timer(f->victim, 1, f->arg); break;
+        case 13: do_foreign_timer(f->victim, 2, f->arg); break;
         default: break;
     }
 }
@@ -626,6 +661,23 @@ static void exec_step(proc *pr, const pline *l)
     } else if (pis(l, "RECON") || pis(l, "RECOFF")) {
         extern void mon_record(int kind, int idx, bool on);
         mon_record((int)((uint64_t)pa(l, 1) % 5), (int)((uint64_t)pa(l, 2) % 4), pis(l, "RECON"));
+    } else if (pis(l, "REPORT")) {
+        /* the text reports, at any moment: never recorded, while recording, after recording */
+        static FILE *devnull;
+        if (!devnull) devnull = fopen("/dev/null", "w");
+        const int kind = (int)((uint64_t)pa(l, 1) % 6);
+        const int idx = (int)((uint64_t)pa(l, 2) % 4);
+        if (!(tnow() < 1.0e60 && tnow() > -1.0e60)) return;      /* fourth powers of the time weights must stay finite: not the library's problem */
+        TR2("report", kind, idx);
+        switch (kind) {
+            case 0: if (W.nres) cmb_resource_print_report(W.res[idx % W.nres], devnull); break;
+            case 1: if (W.npool) cmb_resourcepool_print_report(W.pool[idx % W.npool], devnull); break;
+            case 2: if (W.nbuf) cmb_buffer_print_report(W.buf[idx % W.nbuf], devnull); break;
+            case 3: if (W.noq) cmb_objectqueue_report_print(W.oq[idx % W.noq], devnull); break;
+            case 4: if (W.npq) cmb_priorityqueue_report_print(W.pq[idx % W.npq], devnull); break;
+            default: cmb_event_queue_print(devnull); break;
+        }
+        PROBE("report.printed");
     } else if (pis(l, "GCAN") || pis(l, "GREM")) {
         if (W.nguards == 0) return;
         do_gcancel((int)((uint64_t)pa(l, 1) % (uint64_t)W.nguards), (int)((uint64_t)pa(l, 2) % (uint64_t)np), pis(l, "GCAN"));
